@@ -663,25 +663,56 @@ func c09R4(p *engine.Prog, r *engine.Report) {
 		target := rc.Call.Args[1]
 		okT, okZ := true, false
 		var cands []ssa.Value
+		// the function that searches: EnsureIntegrity itself, or a same-package helper whose result is the target
+		searchFn := ei
+		hasVersionBehind := func(f *ssa.Function, at *ssa.BasicBlock, ret *ssa.Return, e ssa.Value) bool {
+			for _, spec := range []struct{ id string }{{"core/state.StateDB.HasVersion"}, {"core/state.IdentityStateDB.HasVersion"}} {
+				g := guardsWhere(f, func(cond ssa.Value) (bool, bool, string) {
+					c, neg := stripNot(cond)
+					cc, isCall := engine.Unwrap(c).(*ssa.Call)
+					if !isCall || !engine.CallIs(cc, spec.id) || cc.Call.Args[1] != e {
+						return false, false, ""
+					}
+					return true, !neg, "HasVersion"
+				})
+				if len(g) == 0 {
+					return false
+				}
+				if ret != nil {
+					if !engine.OnlyThroughPassRet(f, ret, g) {
+						return false
+					}
+				} else if !engine.OnlyThroughPass(f, at, g) {
+					return false
+				}
+			}
+			return true
+		}
 		if ph, isPhi := target.(*ssa.Phi); isPhi {
 			for i, e := range ph.Edges {
 				if v, isC := engine.ConstInt(e); isC && v == 0 {
 					continue
 				}
 				cands = append(cands, e)
-				pred := ph.Block().Preds[i]
-				for _, spec := range []struct{ id string }{{"core/state.StateDB.HasVersion"}, {"core/state.IdentityStateDB.HasVersion"}} {
-					g := guardsWhere(ei, func(cond ssa.Value) (bool, bool, string) {
-						c, neg := stripNot(cond)
-						cc, isCall := engine.Unwrap(c).(*ssa.Call)
-						if !isCall || !engine.CallIs(cc, spec.id) || cc.Call.Args[1] != e {
-							return false, false, ""
-						}
-						return true, !neg, "HasVersion"
-					})
-					if len(g) == 0 || !engine.OnlyThroughPass(ei, pred, g) {
-						okT = false
-					}
+				if !hasVersionBehind(ei, ph.Block().Preds[i], nil, e) {
+					okT = false
+				}
+			}
+		} else if hc, isCall := target.(*ssa.Call); isCall && hc.Call.StaticCallee() != nil && hc.Call.StaticCallee().Pkg == ei.Pkg && hc.Call.StaticCallee().Blocks != nil {
+			searchFn = hc.Call.StaticCallee()
+			r.Fn(engine.FuncName(searchFn))
+			for _, ret := range engine.Returns(searchFn) {
+				if len(ret.Results) != 1 {
+					okT = false
+					continue
+				}
+				e := ret.Results[0]
+				if v, isC := engine.ConstInt(e); isC && v == 0 {
+					continue
+				}
+				cands = append(cands, e)
+				if !hasVersionBehind(searchFn, nil, ret, e) {
+					okT = false
 				}
 			}
 		} else {
@@ -703,7 +734,7 @@ func c09R4(p *engine.Prog, r *engine.Report) {
 		r.Check(okZ, "C09-R4", "EnsureIntegrity|no retained version found is an error, not a reset to 0", p.InstrPos(rc), "target != 0 gate", "the repair calls ResetTo(0) when no common retained version exists")
 		// search window
 		okW, win := false, int64(0)
-		for _, i := range engine.Ifs(ei) {
+		for _, i := range engine.Ifs(searchFn) {
 			if b, isB := i.Cond.(*ssa.BinOp); isB && b.Op == token.LSS {
 				if k, isC := engine.ConstInt(b.Y); isC && engine.LoopHeaderOf(i.Block()) != nil {
 					win = k
